@@ -220,3 +220,66 @@ func VH21b_dialer() {
 	verif.Assert(verif.LiveGoroutines() == 0, "C10/tcp/goroutines-left-after-close")
 	verif.Reach("closed")
 }
+
+// VH21c_close_queue: Close while the accept loop is busy and finished
+// handshakes (one failed, then good ones) are queued behind it: every
+// connection is released.
+func VH21c_close_queue() {
+	lab := "C10/tcp-queue"
+	vnet.Install()
+	sock := vp.New("bus")
+	gate := make(chan struct{})
+	held := 0
+	sock.SetPipeEventHook(func(ev mangos.PipeEvent, p mangos.Pipe) {
+		if ev == mangos.PipeEventAttaching && held == 0 {
+			held++
+			<-gate // the application's hook is slow: the accept loop is busy
+		}
+	})
+	verif.Assert(sock.Listen("tcp://"+addr) == nil, lab+"/listen")
+	verif.Quiesce()
+	L := vnet.N.Listeners[addr]
+	self := sock.Info().Peer
+	c0 := L.Connect("c0")
+	c0.PeerSend(vnet.SPHeader(self))
+	verif.Quiesce()
+	// while the loop is stuck in the hook, more handshakes finish and queue up
+	order := verif.Choice("order", 3)
+	var cs []*vnet.Conn
+	mk := func(good bool) {
+		c := L.Connect("q")
+		if good {
+			c.PeerSend(vnet.SPHeader(self))
+		} else {
+			c.PeerSend(vnet.SPHeader(self + 1))
+		}
+		cs = append(cs, c)
+		verif.Quiesce()
+	}
+	switch order {
+	case 0:
+		mk(false)
+		mk(true)
+	case 1:
+		mk(true)
+		mk(false)
+		mk(true)
+	case 2:
+		mk(true)
+		mk(true)
+	}
+	cg := verif.Go("close", func() { sock.Close() })
+	verif.Quiesce()
+	close(gate)
+	verif.Quiesce()
+	for i := 0; i < 3; i++ {
+		verif.FireTimer()
+	}
+	verif.Assert(cg.Done(), lab+"/close-does-not-return")
+	verif.Assert(c0.Closed, lab+"/connection-left-open-after-close")
+	for _, c := range cs {
+		verif.Assert(c.Closed, lab+"/queued-connection-left-open-after-close")
+	}
+	verif.Assert(verif.LiveGoroutines() == 0, lab+"/goroutines-left-after-close")
+	verif.Reach("queue-closed")
+}
